@@ -21,7 +21,8 @@ import itertools
 
 from .. import par, world
 from ..cli import Report
-from ..lang import gen_loops, corpus, gen_k, gen_v, gen_x, render
+from ..lang import ref as refmod
+from ..lang import gen_loops, gen_scope, corpus, gen_k, gen_v, gen_x, render
 
 from bardolph.lib.time_pattern import TimePattern
 from bardolph.parser.parse import Parser
@@ -314,7 +315,9 @@ def _part_b(rank, n):
         ((n_, p) for n_, p in gen_k.programs(5)),
         gen_x.programs(3, world.POP_THREE),
         itertools.islice(gen_v.programs(2, world.POP_THREE), 0, None, 3),
-        ((0, p) for tag, p in gen_loops.single(world.POP_THREE) if tag.startswith('in')))
+        ((0, p) for tag, p in gen_loops.single(world.POP_THREE) if tag.startswith('in')),
+        # routine calls with calls among their arguments, as statements and as values
+        ((0, p) for p in itertools.islice(gen_scope.programs(2), 0, None, 23)))
     for n_, prog in gens:
         idx += 1
         if idx % n != rank:
@@ -336,7 +339,12 @@ def _part_b(rank, n):
             elif got != base:
                 t.bad('call-brackets-change-program', t2, _first_diff(base, got))
         if idx % 5 == rank % 5:
-            for toks in brace_variants(prog):
+            try:
+                refmod.Ref(world.POP_THREE, cap=4000).run(prog)
+                defined = True
+            except (refmod.RefUndefined, refmod.RefCap):
+                defined = False     # e.g. the value of a call that returned nothing is used: `x` and `{x}` may differ there
+            for toks in (brace_variants(prog) if defined else ()):
                 t.n += 1
                 t2 = ' '.join(toks)
                 st2, got = compile_text(t2)
@@ -351,7 +359,9 @@ def _part_b(rank, n):
                 r1 = w.run_script(text)
                 w.reset()
                 r2 = w.run_script(t2)
-                if (r1.trace, r1.abort) != (r2.trace, r2.abort):
+                # a script-level error is the same error wherever it is raised: the message names an instruction
+                # number, which differs between the two spellings (PUSH/POP versus MOVE)
+                if (r1.trace, r1.abort and r1.abort[1:]) != (r2.trace, r2.abort and r2.abort[1:]):
                     t.bad('braces-round-a-value-change-behaviour', t2, 'traces differ')
                 t.distinct.add(t2)
     return t.dump()
